@@ -13,6 +13,7 @@ import numpy
 from harness.common import Check, run_main, seed
 from symnum import sym as S, solver as Z, executor as X
 from symnum.sym import Sym, SymError, new_context, symvars, symarray
+from symnum.npproxy import NumpyProxy, patched
 
 
 class CSym:
@@ -192,7 +193,15 @@ def disp2eig_obligations(chk, d2e, tier, rng):
     for j in range(3):
         ca[0, j] = CSym(re[0, j], im[0, j])
     try:
-        out = X.run_single_path(lambda: d2e.evec_disp2eig(ca, [CSym(m0)]), name=name)
+        # dtype predicates of the analysed code must see the modelled rows as what they stand for (complex data)
+        cproxy = NumpyProxy()
+        cproxy.extra["iscomplexobj"] = lambda x: bool(numpy.iscomplexobj(x)) or any(isinstance(e, CSym) for e in numpy.asarray(x, dtype=object).ravel().tolist())
+        cproxy.extra["isrealobj"] = lambda x: not cproxy.extra["iscomplexobj"](x)
+
+        def run_complex():
+            with patched((d2e, {"numpy": cproxy})):
+                return d2e.evec_disp2eig(ca, [CSym(m0)])
+        out = X.run_single_path(run_complex, name=name)
         herm = sum((CSym.of(out[0, j]).re * CSym.of(out[0, j]).re + CSym.of(out[0, j]).im * CSym.of(out[0, j]).im for j in range(3)), Sym({}))
         v, _ = Z.prove_zero(herm - 1, name=name, timeout_ms=30000)
         chk.obligation(name + ": Hermitian norm of the output row is 1", v, kind="identity")
